@@ -39,4 +39,6 @@ PROPERTY C08_FF
 PROPERTY C08_Foreign
 PROPERTY C12_Held
 PROPERTY C20_EntryFate
+PROPERTY C06_Gate
+PROPERTY C04_Gate
 CHECK_DEADLOCK FALSE
